@@ -71,23 +71,58 @@ let integrand e record (pt : float list) : float =
   end;
   eval_fexpr e v
 
-type call = { m : C14_m.method0; seed : int; ncall : int; region : float list; e : fexpr }
+(* a call  <method>[!<n>] ... : with !<n> the integrand throws from its n-th evaluation (the point of that evaluation is still recorded) *)
+type call = { m : C14_m.method0; throw_at : int; seed : int; ncall : int; region : float list; e : fexpr }
 let state = ref (vstate0 fops)
+exception Gave_up
 
 let read_call r =
-  let m = parse_method (coq_string (word r)) in
+  let w = word r in
+  let w, throw_at =
+    match Stdlib.String.index_opt w '!' with
+    | Some i -> Stdlib.String.sub w 0 i, int_of_string (Stdlib.String.sub w (i + 1) (Stdlib.String.length w - i - 1))
+    | None -> w, 0 in
+  let m = parse_method (coq_string w) in
   let seed = integer r in let ncall = integer r in let dim = integer r in
   let region = List.init (2 * dim) (fun _ -> num r) in
   let e = parse_fexpr r in
-  { m; seed; ncall; region; e }
+  { m; throw_at; seed; ncall; region; e }
 
+(* The statics after the call and its value (None: brought to an end by its integrand) come from the model function
+   integrate_mc_throwing, which is handed the plain integrand.  The points the integrand saw up to the throw are obtained by running
+   the model with an integrand that raises at its n-th evaluation (only to stop the recorder there; both must agree on whether the
+   call came to an end early). *)
 let run_call c record =
-  match integrate_mc fops (us_of_seed c.seed) !state c.m (integrand c.e record) c.region (z_of_int c.ncall) with
-  | Ok (v, s) -> state := s; Ok v
-  | Exit -> Exit | OOB -> OOB | Fuel -> Fuel
+  if c.throw_at = 0 then
+    match integrate_mc fops (us_of_seed c.seed) !state c.m (integrand c.e record) c.region (z_of_int c.ncall) with
+    | Ok (v, s) -> state := s; Ok (Some v)
+    | Exit -> Exit | OOB -> OOB | Fuel -> Fuel
+  else begin
+    let s0 = !state in
+    let count = ref 0 in
+    let f pt = let v = integrand c.e record pt in incr count; if !count = c.throw_at then raise Gave_up; v in
+    let seen =
+      if record then
+        (try (match integrate_mc fops (us_of_seed c.seed) s0 c.m f c.region (z_of_int c.ncall) with Ok _ -> Some false | _ -> None)
+         with Gave_up -> Some true)
+      else None in
+    match integrate_mc_throwing fops (us_of_seed c.seed) s0 c.m (integrand c.e false) c.region (z_of_int c.ncall) (z_of_int c.throw_at) with
+    | Ok (v, s) ->
+        state := s;
+        (match seen, v with
+         | Some true, Some _ | Some false, None -> failwith "model: integrate_mc_throwing and the raising integrand disagree"
+         | _ -> Ok v)
+    | Exit -> Exit | OOB -> OOB | Fuel -> Fuel
+  end
 
 let put_res = function
   | Ok v -> put_f v; true
+  | Exit -> put_w "EXIT"; false
+  | OOB -> put_w "OOB"; false
+  | Fuel -> put_w "FUEL"; false
+let put_res_opt = function
+  | Ok (Some v) -> put_f v; true
+  | Ok None -> put_w "ABORTED"; true
   | Exit -> put_w "EXIT"; false
   | OOB -> put_w "OOB"; false
   | Fuel -> put_w "FUEL"; false
@@ -102,18 +137,22 @@ let handler r =
       put_fl (List.init k g)
   | "mc" ->
       let c = read_call r in
-      if put_res (run_call c true) then put_rec (List.length c.region / 2)
+      if put_res_opt (run_call c true) then put_rec (List.length c.region / 2)
   | "hist" ->
       let nh = integer r in
       let hs = List.init nh (fun _ -> read_call r) in
       let c = read_call r in
+      (* the fresh process is the model started from vstate0 *)
       (match run_call c false with
-       | Ok a ->
+       | Ok (Some a) ->
+           let nab = ref 0 in
            let rec go = function
-             | [] -> true
-             | h :: t -> (match run_call h false with Ok _ -> go t | _ -> false) in
-           if go hs then (match run_call c false with Ok b -> put_f a; put_f b | _ -> put_w "MODELERR observed_call_failed")
-           else put_w "MODELERR history_call_failed"
+             | [] -> ""
+             | h :: t -> (match run_call h false with Ok v -> (if v = None then incr nab); go t | Exit -> "EXIT" | OOB -> "OOB" | Fuel -> "FUEL") in
+           (match go hs with
+            | "" -> (match run_call c false with Ok (Some b) -> put_f a; put_f a; put_f b; put_i !nab | _ -> put_w "MODELERR observed_call_failed")
+            | w -> put_w w)
+       | Ok None -> put_w "MODELERR observed_call_throws"
        | Exit -> put_w "EXIT" | OOB -> put_w "OOB" | Fuel -> put_w "FUEL")
   | ("front2d" | "front3d") as op ->
       let m = parse_method (coq_string (word r)) in
